@@ -4,7 +4,7 @@ from vlib import common, decsuite, picgen, h263spec as S
 from vlib.common import hexs
 from vlib.decsuite import D, parse_tok, cls_kind
 
-THEOREMS = ["C01_kernels_safe"]
+THEOREMS = ["C01_decode_total", "C01_history_total", "C01_macroblock_progress", "C01_kernels_safe"]
 BRIDGES = ["BridgeTables"]
 
 SIZES = [(16, 16), (32, 16), (16, 32), (17, 9), (1, 1), (33, 18), (48, 32), (8, 40), (64, 16)]
@@ -122,7 +122,7 @@ def gen_cases(ctx, n):
 
 def run(ctx):
     thorough = ctx.tier == "thorough"
-    broken = common.proof_step(ctx, THEOREMS, BRIDGES)
+    broken = common.proof_step(ctx, THEOREMS, BRIDGES, allowed_axioms=common.REALS_AXIOMS)
     err = common.ensure_runners(ctx)
     if err:
         ctx.violation({"kind": "build", "names": "harness build failed", "log": err[-2000:]}, "harness does not build", found_input=False)
